@@ -313,7 +313,7 @@ def chunk_choices(n):
 
 def frame_spec(r: random.Random, mx=None, rows=None, nch=None, sources=('inline', 'dict', 'struct', 'hdf5'),
                casts=False, fills=('pos', 'rand', 'special'), layouts=LAYOUTS, orders='<>=', index=False,
-               window=False, nframes=1, dtypes=DTYPES, max_width=None, mixed_inline=False) -> dict:
+               window=False, nframes=1, dtypes=DTYPES, max_width=None, mixed_inline=False, dataset_names=True) -> dict:
     """Random valid spec: origin + nframes frames with their own channels and data."""
     mx = mx or r.choice([64, 128, 512, 8192, 8192, 16384])
     cap = mx - 8
@@ -348,7 +348,7 @@ def frame_spec(r: random.Random, mx=None, rows=None, nch=None, sources=('inline'
             if casts and r.random() < 0.4:
                 kw['cast_dtype'] = {'$dtype': r.choice(DTYPES), 'as': r.choice(['type', 'dtype'])}
                 fill = {'kind': 'safe', 'tag': tag}
-            if r.random() < 0.3:
+            if dataset_names and r.random() < 0.3:
                 kw['dataset_name'] = ('/' if (source == 'hdf5' and r.random() < 0.3) else '') + f'ds_{f}_{c}'
             nm = f'CH{f}_{c}'
             sp['ops'].append(channel_op(nm, dtstr(dt, order), shape, fill=fill, layout=layout, **kw))
@@ -365,6 +365,8 @@ def frame_spec(r: random.Random, mx=None, rows=None, nch=None, sources=('inline'
         for o in chan_ops[1:]:
             if r.random() < 0.4:
                 o['force_inline'] = True
+    if source == 'struct':
+        w['struct_variant'] = r.choice([None, None, 'aligned', 'view'])
     if source != 'inline':
         w['perm_seed'] = r.choice([None, r.randrange(1000)])
         w['extra'] = r.choice([0, 0, 1, 3])
@@ -386,7 +388,7 @@ def frame_signature(sp) -> str:
                                       else 'gt' if ics > n else 'nondiv')
     parts = sorted({(c['data']['dtype'], c['data'].get('layout', 'C'), len(c['data']['shape']),
                      c['data'].get('fill', {}).get('kind'), bool(c.get('cast_dtype'))) for c in chans})
-    return f"{parts}|{w.get('source', 'inline')}|{rel}|{n}|{w.get('from_idx')}:{w.get('to_idx')}"
+    return f"{parts}|{w.get('source', 'inline')}{w.get('struct_variant') or ''}|{rel}|{n}|{w.get('from_idx')}:{w.get('to_idx')}"
 
 
 def frame_nontrivial(sp) -> bool:
@@ -397,3 +399,14 @@ def frame_nontrivial(sp) -> bool:
     return any(c['data']['dtype'][0] == '>' or c['data'].get('layout', 'C') != 'C' or len(c['data']['shape']) > 1
                or c['data'].get('fill', {}).get('kind') in ('rand', 'special') for c in chans) \
         or (ics is not None and ics < n)
+
+
+def fastpath_spec(r: random.Random, **kw) -> dict:
+    """Structured-array source whose fields are exactly the frame's channels with native dtypes and no cast: the place
+    where a zero-copy path through the source array can live.  Field order, padding (aligned) and multi-field views vary."""
+    sp = frame_spec(r, casts=False, orders='<=', layouts=('C',), sources=('struct',), nframes=1, dataset_names=False,
+                    nch=r.choice([2, 3, 4]), **kw)
+    sp['write']['extra'] = 0
+    sp['write']['perm_seed'] = r.choice([None, r.randrange(1000), r.randrange(1000)])
+    sp['write']['struct_variant'] = r.choice([None, 'aligned', 'view'])
+    return sp
